@@ -17,7 +17,7 @@ from sfv.framework import Ctx, Property
 from sfv.rt import stepdrive as sd
 from sfv.rt.loop_safe import run_controlled
 from sfv.rt.sfctx import make_context
-from sfv.translate import gatherguards, tagguards
+from sfv.translate import gatherguards, tagguards, stepguards
 
 BOUNDARY = [0, 1, 9, 10, 11, 12]
 STATUSES = ["COMPLETED", "SKIPPED", "FAILED", "CANCELLED", "RECOVERED"]
@@ -219,6 +219,51 @@ class Rig:
         await sd.drive(step, [("x", t) for t in inputs] + [("x", TerminationToken(Status[term]))], imposed=False)
         return list(p_out.token_list), list(step.get_size_port().token_list), step
 
+    async def scatter_run(self, events: list) -> tuple[list[Token], list[Token], bool]:
+        """a real ScatterStep fed one token at a time; events = ['l', tag, n] (ListToken of n ints) | ['o', tag] (a plain Token) |
+        ['t', STATUS] | ['r', [tags]] (ScatterStep.restore with on_tokens = tokens carrying these tags, called while the step is idle).
+        Returns the logs of the (possibly replaced) element port and of the size port, and whether run() raised."""
+        wf = self._wf()
+        p_in, p_out = wf.create_port(), wf.create_port()
+        step = wf.create_step(cls=ScatterStep, name="/s/x-scatter")
+        step.add_input_port("x", p_in)
+        step.add_output_port("x", p_out)
+        await wf.save(self.context.database)
+        task = asyncio.create_task(step.run())
+        raised = False
+        fed: dict = {}
+        self.last_scatter_applied = 0
+        try:
+            await sd.settle(step, task, ["x"])
+            for e in events:
+                if task.done():
+                    break           # run() raised (or terminated): nothing after this point is applied — nor given to the model
+                self.last_scatter_applied += 1
+                if e[0] == "r":
+                    await step.restore({p_out.name: [Token(value=None, tag=t) for t in e[1]]})
+                    continue
+                tok = (ListToken(tag=e[1], value=[Token(value=i, tag=e[1]) for i in range(e[2])]) if e[0] == "l"
+                       else Token(value="plain", tag=e[1]) if e[0] == "o" else TerminationToken(Status[e[1]]))
+                await sd.save_tokens(self.context, p_in, [tok])
+                fed[tok.persistent_id] = events.index(e) if events.count(e) == 1 else [i for i, x in enumerate(events) if x is e][0]
+                p_in.put(tok)
+                for _ in range(sd.TERM_SPINS):
+                    await asyncio.sleep(0)
+                await sd.settle(step, task, ["x"])
+            if not task.done():       # no termination token in the stream: the step is blocked on its port
+                task.cancel()
+            try:
+                await task
+            except asyncio.CancelledError:
+                pass
+            except Exception:  # noqa: BLE001
+                raised = True
+        finally:
+            if not task.done():
+                task.cancel()
+        self.last_scatter_inputs = fed
+        return list(wf.ports[p_out.name].token_list), list(step.get_size_port().token_list), raised
+
     async def gather(self, depth: int, events: list, imposed: bool) -> tuple[list[Token], GatherStep]:
         """run a real GatherStep; events = ('e', tok) | ('s', tok) | ('te', status) | ('ts', status)"""
         wf = self._wf()
@@ -265,6 +310,18 @@ def render_real_out(out: list[Token], ids: dict) -> str:
     return body + "|term=" + (terms[0].value.name if terms and pos_ok else ("-" if not terms else "MISPLACED"))
 
 
+def canon_prov(rendered: str) -> list:
+    """`key<-S[a,b];…` -> [(key, kind, sorted elements)]"""
+    if rendered == "-":
+        return []
+    out = []
+    for part in rendered.split(";"):
+        head, body = part.split("[", 1)
+        key, kind = head.split("<-")
+        out.append((key, kind, tuple(sorted(x for x in body.rstrip("]").split(",") if x))))
+    return out
+
+
 def canon_sets(rendered: str) -> tuple:
     body, term = rendered.split("|term=")
     return tuple(sorted(body.split(";"))), term
@@ -276,7 +333,7 @@ class C01(Property):
     lean_targets = ["SFV.Props.C01", "SFV.Model.Proto"]
     props_files = ["SFV/Props/C01.lean"]
     drivers = ["Drivers/C01.lean"]
-    translators = [tagguards.generate, gatherguards.generate]
+    translators = [tagguards.generate, stepguards.generate, gatherguards.generate]
     quick_budget_s = 300
     rule = ("REAL ScatterStep and GatherStep wired with real Ports in an in-memory context. Lists of length 0..40 (always 0,1,9,10,11,12), "
             "scalar/list/dict/ObjectToken elements, an element-wise tag-preserving map in between; 1..4 concurrent parent tags; nesting "
@@ -330,6 +387,13 @@ class C01(Property):
         for g, (real, how, case) in zip(got, self._expect):
             if how == "exact":
                 same = g == real
+            elif how == "scatterprov":   # tokens dropped by the FilterTokenPort are persisted but not on the port: compare what is on the ports
+                mine = set(real.split(",")) if real != "-" else set()
+                tags = {x.split("<-")[0] for x in mine}
+                same = {x for x in (g.split(",") if g != "-" else []) if x.split("<-")[0] in tags} == mine
+            elif how in ("prov", "provset"):   # element order inside a provenance set is not observable in the database
+                cg, cr = canon_prov(g), canon_prov(real)
+                same = cg == cr if how == "prov" else sorted(cg) == sorted(cr)
             else:   # the arrival order was chosen by the event loop: same lists per key, same termination
                 same = canon_sets(g) == canon_sets(real)
             if not same:
@@ -393,11 +457,29 @@ class C01(Property):
             cwl = []
         for levels, value in cwl:
             yield {"op": "cwl", "levels": levels, "value": value}
+        # ScatterStep.run as a whole: several inputs, a non-list token, any termination status, restore (FilterTokenPort)
+        for i in range(80 if wide else 24):
+            evs, tags = [], rng.sample(["0", "1", "2", "0.3", "0.10", "10"], rng.randint(1, 4))
+            for t in tags:
+                evs.append(["o", t] if rng.random() < 0.08 else ["l", t, rng.choice([0, 0, 1, 2, 3, 11, 12])])
+            if rng.random() < 0.45:
+                pool = [f"{e[1]}.{k}" for e in evs if e[0] == "l" for k in range(e[2])]
+                valid = sorted(rng.sample(pool, rng.randint(0, len(pool)))) if pool else []
+                if rng.random() < 0.3:
+                    valid.append("7.7")
+                evs.insert(rng.randint(0, len(evs)), ["r", valid])
+            if rng.random() < 0.9:
+                evs.append(["t", rng.choice(STATUSES)])
+            yield {"op": "scatterrun", "events": evs}
         # incomplete streams: the forced-gathering branch (the property's premise fails; model vs code only)
         for _ in range(60 if wide else 20):
             n = rng.choice([0, 1, 2, 3, 11])
             yield {"op": "partial", "n": n, "drop": rng.choice(["size", "elems", "none", "both"]), "extra_size": rng.random() < 0.2,
                    "te": rng.choice(STATUSES), "ts": rng.choice(STATUSES), "depth": 1, "oseed": rng.randrange(1 << 30)}
+        for _ in range(40 if wide else 12):     # several keys and depth 2: order of the forced gathering, key slice on incomplete streams
+            yield {"op": "partial", "n": rng.choice([1, 2, 3, 11]), "drop": rng.choice(["size", "elems", "none", "both"]), "extra_size": False,
+                   "keys": rng.sample(["0", "1", "0.2", "0.10", "0.9"], rng.randint(2, 3)), "te": rng.choice(STATUSES), "ts": rng.choice(STATUSES),
+                   "depth": rng.choice([1, 1, 2]), "oseed": rng.randrange(1 << 30)}
 
     # --------------------------------------------------------------------------------------------
     async def run_case(self, ctx: Ctx, rig: Rig, case: dict) -> None:
@@ -420,8 +502,24 @@ class C01(Property):
         ids: dict = {}
         line = lean_gather_line(depth, events, ids)
         exp = (render_real_out(out, ids), "exact" if imposed else "sets", dict(case, stage=stage, line=line))
+        # provenance recorded in the database for every emitted list token: the size token of its key + its element tokens
+        by_pid = {t.persistent_id: f"{t.tag}:{ids[id(t)]}" for k, t in events if k == "e" and id(t) in ids}
+        size_pids = {t.persistent_id for k, t in events if k == "s"}
+        provs = []
+        for t in (out if "perm" not in case else []):
+            if isinstance(t, TerminationToken):
+                continue
+            deps = [r["dependee"] for r in await rig.context.database.get_dependees(t.persistent_id)]
+            els = sorted(by_pid[d] for d in deps if d in by_pid)
+            others = [d for d in deps if d not in by_pid]
+            kind = "S" if len(others) == 1 and others[0] in size_pids else "F" if len(others) == 1 else f"?{len(others)}"
+            provs.append(f"{t.tag}<-{kind}[{','.join(els)}]")
+        pexp = (";".join(provs) or "-", "prov" if imposed else "provset", dict(case, stage=stage + ":provenance", line=line))
         self._lines.append(line)       # (line, expectation) are appended together: a crash in between must not misalign them
         self._expect.append(exp)
+        if "perm" not in case:
+            self._lines.append("gatherprov" + line[len("gather"):])
+            self._expect.append(pexp)
         return out
 
     async def _run_case(self, ctx: Ctx, rig: Rig, case: dict) -> None:
@@ -468,23 +566,67 @@ class C01(Property):
                 self._monitor(ctx, case, out, [expect_tree(case["f"], case["value"], levels, case["tag"])])
             ctx.case({"case": _brief(case)}, ("nested", levels, case["single_gather"], repr(case["value"])[:200], case["oseed"]),
                      f"nested-{levels}" + ("-single-gather" if case["single_gather"] else ""))
+        elif op == "scatterrun":
+            evs = case["events"]
+            elems, sizes, raised = await rig.scatter_run(evs)
+            evs = evs[: rig.last_scatter_applied]
+            words = [f"l:{e[1]}:{e[2]}" if e[0] == "l" else f"o:{e[1]}" if e[0] == "o" else f"t:{e[1]}" if e[0] == "t"
+                     else "r:" + (",".join(e[1]) or "-") for e in evs]
+            terms = [t for t in elems if isinstance(t, TerminationToken)]
+            tsz = [t for t in sizes if isinstance(t, TerminationToken)]
+            ok_term = len(terms) <= 1 and len(tsz) == len(terms) and (not terms or (elems[-1] is terms[0] and sizes[-1] is tsz[0]
+                                                                                       and terms[0].value == tsz[0].value))
+            real = ((",".join(f"{t.tag}:{t.value}" for t in elems if not isinstance(t, TerminationToken)) or "-") + "|sizes=" +
+                    (",".join(f"{t.tag}:{t.value}" for t in sizes if not isinstance(t, TerminationToken)) or "-") + "|term=" +
+                    ((terms[0].value.name if terms else "-") if ok_term else "INCONSISTENT") + ("|raised" if raised else ""))
+            exp = (real, "exact", dict(case, stage="scatterrun"))
+            # provenance in the database of every token on the two ports at the end: the list token it was scattered from
+            fed = rig.last_scatter_inputs
+            provs = []
+            for log, pre in ((elems, ""), (sizes, "size:")):
+                for t in log:
+                    if isinstance(t, TerminationToken):
+                        continue
+                    deps = [r["dependee"] for r in await rig.context.database.get_dependees(t.persistent_id)]
+                    provs.append(f"{pre}{t.tag}<-" + ("+".join(str(fed.get(d, "?")) for d in deps) or "none"))
+            pexp = (",".join(sorted(provs)) or "-", "scatterprov", dict(case, stage="scatterrun:provenance"))
+            self._lines.append("scatterrun " + " ".join(words))
+            self._expect.append(exp)
+            self._lines.append("scatterprov " + " ".join(words))
+            self._expect.append(pexp)
+            if all(e[0] in ("l", "t") for e in evs) and evs and evs[-1][0] == "t":
+                # the property's part: element i of every list retagged tag.i in order, one size token per list, both ports terminated
+                exp_e = [f"{e[1]}.{k}" for e in evs if e[0] == "l" for k in range(e[2])]
+                exp_s = [(e[1], e[2]) for e in evs if e[0] == "l"]
+                got_e = [t.tag for t in elems if not isinstance(t, TerminationToken)]
+                got_s = [(t.tag, t.value) for t in sizes if not isinstance(t, TerminationToken)]
+                if got_e != exp_e or got_s != exp_s or not terms:
+                    ctx.fail("scatter:wrong-tags-or-size", f"scatter run {words}: elements {got_e[:30]} sizes {got_s} terminated {bool(terms)}", case)
+            ctx.case({"case": case, "real": real[:300]}, ("scatterrun", tuple(words)), "scatterrun")
         elif op == "pipeline":
             await self._pipeline(ctx, rig, case)
         elif op == "cwl":
             await self._cwl(ctx, rig, case)
         elif op == "partial":
-            n = case["n"]
-            elems = [Token(value=i, tag=f"0.{i}") for i in range(n)]
-            sizes = [Token(value=n, tag="0")]
-            if case["drop"] in ("size", "both"):
-                sizes = []
-            if case["drop"] in ("elems", "both") and elems:
-                elems = rng.sample(elems, rng.randint(0, len(elems) - 1))
+            n, depth = case["n"], case["depth"]
+            elems, sizes = [], []
+            # one key ("0"), or several concurrent keys: the forced gathering walks token_map in insertion order
+            for key in case.get("keys", ["0"]):
+                mid = ".0" * (depth - 1)
+                ke = [Token(value=i, tag=f"{key}{mid}.{i}") for i in range(n)]
+                ks = [Token(value=n, tag=key)]
+                drop = case["drop"] if key == case.get("keys", ["0"])[0] else rng.choice(["size", "elems", "none", "both"])
+                if drop in ("size", "both"):
+                    ks = []
+                if drop in ("elems", "both") and ke:
+                    ke = rng.sample(ke, rng.randint(0, len(ke) - 1))
+                elems += ke
+                sizes += ks
             if case["extra_size"]:
                 sizes.append(Token(value=rng.randint(0, 2), tag="0.7"))
             events = interleave(rng, elems, sizes, "shuffled", te=case["te"], ts=case["ts"])
             await self._gather_stage(ctx, rig, case, case["depth"], events, True, "gather-partial")
-            ctx.case({"case": case}, ("partial", n, case["drop"], case["te"], case["ts"], case["oseed"]), "partial")
+            ctx.case({"case": case}, ("partial", n, case["drop"], case["te"], case["ts"], case["oseed"]), "partial" if "keys" not in case else "partial-multi-key")
         else:
             raise ValueError(op)
 
@@ -691,7 +833,11 @@ class C01(Property):
         got = ctx.lean("Drivers/C01.lean", self._lines)
         for ln, g, (real, how, c) in zip(self._lines, got, self._expect):
             print(f"{c.get('stage')}: {ln[:400]}\n   real : {real[:600]}\n   model: {g[:600]}")
-            if (g != real) if how == "exact" else (canon_sets(g) != canon_sets(real)):
+            if how == "scatterprov":
+                continue
+            bad = (g != real) if how == "exact" else (canon_prov(g) != canon_prov(real)) if how == "prov" else \
+                (sorted(canon_prov(g)) != sorted(canon_prov(real))) if how == "provset" else (canon_sets(g) != canon_sets(real))
+            if bad:
                 ctx.disagree("model vs code", f"code {real!r}, model {g!r}", c)
 
 
